@@ -583,4 +583,173 @@ Proof.
     + exists (v' :: vs). cbn [map List.length]. split; [simp_st; congruence | cbn [p_fl mkpos List.length] in *; lia].
 Qed.
 
+
+(* ------------------------------------------------------------------ the task runs (no cancellation pending) *)
+Hypothesis Hfol : follows L (plan_of pid).
+
+Definition StepOK (s : st) (os : list obs) (r : st * list obs) : Prop :=
+  reads_ok rdm (last_msg None os) (snd r) = true -> Inv (fst r) (os ++ snd r).
+
+Lemma neutral_intro o : final_events o = [] -> stops o = [] -> no_raise o = true -> (forall cur, last_msg cur o = cur) -> neutral o.
+Proof. intros. repeat split; assumption. Qed.
+
+Lemma stack_shape (fl : list (list msg)) (f : frame P) :
+  exists f2 tl, map (@FList P) fl ++ [f] = f2 :: tl /\ List.length tl = List.length fl.
+Proof.
+  destruct fl as [|l fl]; cbn.
+  - exists f, []. auto.
+  - exists (FList l), (map (@FList P) fl ++ [f]). split; [reflexivity|]. rewrite app_length, map_length. cbn. lia.
+Qed.
+
+Lemma step_task_rs (s : st) os q :
+  Core q s os -> state s = Running -> pc s = PcSleep0 -> must_cancel s = false -> permit s = true -> p_infl q = [] ->
+  RespsOK (S (List.length (p_fl q))) s -> StepOK s os (task_step s).
+Proof.
+  intros HC Hst Hpc Hmc Hpm Hin (vs & Hrs & Hlen). pose proof HC as (HP & HLk & HD).
+  pose proof HLk as (L1 & L2 & L3 & L4 & L5 & L6 & L7 & L8 & L9 & L10).
+  destruct vs as [|v vs]; [discriminate Hlen|]. cbn [map] in Hrs. cbn [List.length] in Hlen.
+  pose proof (pos_facts q HP) as (W0 & Wc & We & Hrr & Hn & Hds & Hfresh & drest & Hrest & HSD).
+  pose proof HP as (P1 & P2 & P3 & P4 & P5 & P6 & P7 & P8).
+  unfold StepOK.
+  destruct (p_fl q) as [|l1 fl1] eqn:Efl.
+  - cbn [map app] in L2. destruct (p_u q) as [|m u'] eqn:Eu.
+    + (* the plan returns *)
+      cbn [PointSpec.follows] in P2. destruct vs; [|discriminate Hlen]. cbn [map] in Hrs.
+      rewrite (task_return P presume plan_of D dev s v pid (p_p q) (p_started q) rv Hpc Hmc L6 L5 Hrs L2 (P2 v)).
+      cbn [fst snd]. intros _.
+      destruct (PosOK_end q HP Hin Efl Eu) as (Ha & HSD' & Hds').
+      apply I_final; simp_st; try congruence.
+      unfold FinCore. simp_st. rewrite L2. cbn [List.tl].
+      split; [reflexivity|]. split; [|split; [exact L6 | split; [exact L10|]]].
+      * unfold RE_PointsB.BR in L4. rewrite Ha, Hfin in L4. exact L4.
+      * apply DocsAll_neutral; [apply neutral_intro; reflexivity|].
+        destruct HD as (D1 & D2 & D3 & D4). unfold DocsAll. split; [exact D1|]. split; [rewrite HSD'; exact D2|].
+        split; [rewrite HSD', doc_stops_app, Hds', app_nil_r; exact D3 | exact D4].
+    + (* the plan yields a message *)
+      cbn [PointSpec.follows] in P2. destruct (P2 v) as (p' & Hy & Hf').
+      assert (Hk : bodym m = true \/ (is_head (mcmd m) = true /\ p_fl q = [] /\ @nil (list msg) = [] /\ p_u q = m :: u')).
+      { unfold pend in Hrest. rewrite Hin, Efl, Eu in Hrest. cbn in Hrest.
+        destruct (astep (p_acur q) m) as [[a1 d1]|] eqn:Ea; [|discriminate].
+        destruct (astep_kind _ _ _ _ _ _ Ea) as [Hh|Hb]; [right | left; exact Hb]. auto. }
+      destruct (process_msg s os q v (map RVal vs) vs (FUser pid (p_p q) (p_started q)) [] m (FUser pid p' true)
+                  [OPlanIn pid (Send v)] [] u' p' true) as (s' & o & E & HI); try assumption; try reflexivity.
+      * destruct vs; [reflexivity | discriminate Hlen].
+      * cbn [RE.frame_resume]. rewrite Hy. destruct (p_started q); reflexivity.
+      * right. eexists. reflexivity.
+      * unfold pend. rewrite Efl, Eu. reflexivity.
+      * rewrite E. exact HI.
+  - cbn [map app] in L2. destruct l1 as [|m l1].
+    + (* an exhausted replay list *)
+      destruct (stack_shape fl1 (FUser pid (p_p q) (p_started q))) as (f2 & tl & Hsh & Hlt).
+      rewrite Hsh in L2.
+      rewrite (task_pop P presume plan_of D dev s v (map RVal vs) f2 tl Hpc Hmc Hst Hpm L6 L5 Hrs L2)
+        by (rewrite map_length; cbn [List.length] in Hlen; lia).
+      cbn [fst snd]. intros _.
+      apply Inv_neutral; [apply neutral_intro; reflexivity|].
+      eapply I_rs with (q := mkpos (p_pre q) (p_c q) (p_infl q) fl1 (p_u q) (p_p q) (p_started q) (p_a0 q) (p_acur q) (p_aend q) (p_d0 q) (p_dc q));
+        simp_st; try congruence.
+      * split; [apply PosOK_pop; assumption|]. split; [|exact HD].
+        unfold Link, mkpos; cbn [p_c p_infl p_fl p_p p_started p_acur p_a0 p_aend]. simp_st. rewrite L2, Hsh. cbn [List.tl].
+        repeat split; assumption.
+      * exact Hin.
+      * exists vs. split; [reflexivity | cbn [p_fl mkpos List.length] in *; lia].
+    + (* a replay list re-issues a message *)
+      cbn [forallb] in P8. apply andb_true_iff in P8. destruct P8 as [P81 P82]. cbn [forallb] in P81.
+      apply andb_true_iff in P81. destruct P81 as [Hbm Hbl].
+      destruct (process_msg s os q v (map RVal vs) vs (FList (m :: l1)) (map (@FList P) fl1 ++ [FUser pid (p_p q) (p_started q)]) m
+                  (FList l1) [] (l1 :: fl1) (p_u q) (p_p q) (p_started q)) as (s' & o & E & HI); try assumption; try reflexivity.
+      * cbn [List.length] in *. lia.
+      * left. reflexivity.
+      * unfold pend. rewrite Efl. cbn [List.concat]. rewrite <- !app_assoc. reflexivity.
+      * cbn [forallb]. rewrite Hbl, P82. reflexivity.
+      * left. exact Hbm.
+      * rewrite E. exact HI.
+Qed.
+
+
+Lemma lsame_refl s : lsame s s.
+Proof. unfold lsame. repeat split. Qed.
+Lemma lsame_trans a b c : lsame a b -> lsame b c -> lsame a c.
+Proof. unfold lsame. intros H1 H2. decompose [and] H1. decompose [and] H2. repeat split; congruence. Qed.
+Ltac lsame_tac := unfold lsame; simp_st; repeat split; reflexivity.
+
+Lemma task_step_inr (s : st) r : RE_Inv.tentry P presume D dev s = inr r -> task_step s = r.
+Proof. intros H. rewrite task_step_tentry, H. reflexivity. Qed.
+
+(* a command that was waiting on a future completes *)
+Definition nsame (s s' : st) : Prop :=
+  cache s' = cache s /\ plans s' = plans s /\ uid_supply s' = uid_supply s /\
+  exc_slot s' = exc_slot s /\ stashed s' = stashed s /\ deferred s' = deferred s /\ rewindable s' = rewindable s /\
+  record_intr s' = record_intr s /\ main_err s' = main_err s.
+Ltac nsame_tac := unfold nsame; simp_st; repeat split; reflexivity.
+
+Lemma step_task_rc (s : st) os q k m :
+  Core q s os -> state s = Running -> pc s = PcCmd k -> must_cancel s = false -> permit s = true ->
+  p_infl q = [m] -> kmatch (p_acur q) k m -> RespsOK (List.length (p_fl q)) s -> last_msg None os = Some m ->
+  StepOK s os (task_step s).
+Proof.
+  intros (HP & HLk & HD) Hst Hpc Hmc Hpm Hin Hkm (vs & Hrs & Hlen) Hlm.
+  pose proof HLk as (L1 & L2 & L3 & L4 & L5 & L6 & L7 & L8 & L9 & L10).
+  destruct (PosOK_cmd q m HP Hin) as (acur' & dm & Hstep & Hrel & Hincl & HP').
+  pose proof (astep_susp_docs _ _ _ _ _ Hstep Hkm) as Hdm. subst dm. rewrite app_nil_r in HP'.
+  assert (Hbm : bodym m = true).
+  { destruct HP as (_ & _ & _ & _ & _ & _ & P7 & _). rewrite Hin in P7. cbn in P7. apply andb_true_iff in P7. apply P7. }
+  destruct (astep_body _ _ _ _ _ _ Hbm Hstep) as (N1 & _).
+  assert (Hlp : S (List.length (resps s)) = List.length (plans s)).
+  { rewrite Hrs, L2, map_length, app_length, map_length. cbn. lia. }
+  set (q' := mkpos (p_pre q) (p_c q ++ [m]) [] (p_fl q) (p_u q) (p_p q) (p_started q) (p_a0 q) acur' (p_aend q) (p_d0 q) (p_dc q)) in *.
+  assert (Hfin1 : forall (s1 : st) r o1,
+             nsame s s1 -> BR (bundlers s1) (p_a0 q) acur' (p_aend q) ->
+             resps s1 = resps s -> state s1 = Running -> permit s1 = true -> must_cancel s1 = false ->
+             RE_Inv.tentry P presume D dev s = inl (s1, CContinue true (RVal r), o1) ->
+             neutral o1 ->
+             Inv (fst (task_step s)) (os ++ snd (task_step s))).
+  { intros s1 r o1 (A1 & A2 & A3 & A5 & A6 & A7 & A8 & A9 & A10) HB1 Hr1 Hs1 Hp1 Hmc1 Ht Hn1.
+    rewrite (task_cmd_done P presume plan_of D dev s s1 (RVal r) o1 Hs1 Hp1) by congruence.
+    cbn [fst snd].
+    replace ((o1 ++ []) ++ [OTask WSleep0]) with (o1 ++ [OTask WSleep0]) by (rewrite app_nil_r; reflexivity).
+    rewrite app_assoc. apply Inv_neutral; [apply neutral_intro; reflexivity|].
+    apply Inv_neutral; [exact Hn1|].
+    eapply I_rs with (q := q'); simp_st; try congruence.
+    - split; [exact HP'|]. split; [|exact HD].
+      unfold Link, q', mkpos; cbn [p_c p_infl p_fl p_p p_started p_acur p_a0 p_aend]. simp_st. rewrite app_nil_r.
+      rewrite Hin in L1. repeat split; try congruence.
+    - reflexivity.
+    - exists (r :: vs). cbn [map List.length]. split; [simp_st; congruence | cbn [p_fl q' mkpos]; lia]. }
+  unfold StepOK. intros Hreads.
+  pose proof (astep_mrun _ _ _ _ _ _ Hstep) as Hrun.
+  destruct k as [| |sids|fs|run d z]; cbn [RE_PointsB.kmatch] in Hkm; try contradiction.
+  - (* sleep *)
+    apply (Hfin1 (RE.set_must_cancel P D s false) VNone [OResp (RVal VNone)]); simp_st; try assumption; try reflexivity.
+    + nsame_tac.
+    + eapply BR_run; [|exact L4]. unfold PointSpec.astep in Hstep. rewrite Hrun, Nat.eqb_refl, Hkm in Hstep. cbn in Hstep. inv Hstep. reflexivity.
+    + unfold RE_Inv.tentry. cbv zeta. rewrite Hpc, Hmc. reflexivity.
+    + apply neutral_intro; reflexivity.
+  - (* wait *)
+    destruct Hkm as [g Hkm].
+    apply (Hfin1 (RE.set_must_cancel P D s false) (VBool true)
+             ((if RE.all_resolved P D (RE.set_must_cancel P D s false) sids then [] else [OBad 6]) ++ [OResp (RVal (VBool true))]));
+      simp_st; try assumption; try reflexivity.
+    + nsame_tac.
+    + eapply BR_run; [|exact L4]. unfold PointSpec.astep in Hstep. rewrite Hrun, Nat.eqb_refl, Hkm in Hstep. cbn in Hstep. inv Hstep. reflexivity.
+    + unfold RE_Inv.tentry. cbv zeta. rewrite Hpc, Hmc. reflexivity.
+    + destruct (RE.all_resolved P D (RE.set_must_cancel P D s false) sids); apply neutral_intro; reflexivity.
+  - (* read *)
+    pose proof Hkm as (-> & Hc & Ho & _).
+    edestruct resume_read with (s := RE.set_must_cancel P D s false) (m := m) (a0 := p_a0 q) (acur := p_acur q) (aend := p_aend q)
+                              (acur' := acur') (d := d) (z := z) as (s1 & Hfr & K1 & C1 & U1 & _ & HB1); try eassumption.
+    destruct K1 as (K1 & K2 & K3 & K4 & K5 & K6 & K7 & K8 & K9 & K10 & K11 & K12 & K13). simp_st.
+    assert (Hte : RE_Inv.tentry P presume D dev s = inl (s1, CContinue true (RVal (VReading d z)), [] ++ [OResp (RVal (VReading d z))])).
+    { unfold RE_Inv.tentry. cbv zeta. rewrite Hpc, Hmc, Hfr. reflexivity. }
+    assert (Hz : z = rdm m).
+    { rewrite (task_cmd_done P presume plan_of D dev s s1 (RVal (VReading d z)) ([] ++ [OResp (RVal (VReading d z))])) in Hreads;
+        try congruence.
+      cbn [snd] in Hreads. rewrite Hlm in Hreads. cbn in Hreads. apply andb_true_iff in Hreads. destruct Hreads as [Hreads _].
+      apply Z.eqb_eq. exact Hreads. }
+    apply (Hfin1 s1 (VReading d z) ([] ++ [OResp (RVal (VReading d z))])); try congruence.
+    + unfold nsame. repeat split; congruence.
+    + apply HB1. exact Hz.
+    + apply neutral_intro; reflexivity.
+Qed.
+
 End D.
